@@ -55,7 +55,11 @@ def strategy(date, ctx):
             perm = list(range(k, n)) + list(range(k))
         label = draw(st.sampled_from(["range", "shuffled", "strings", "sparse"]))
         lab_seed = draw(st.integers(0, 10**6))
-        return pop, [int(i) for i in perm], label, lab_seed
+        # the permuted table is, in half of the cases, simulated with debug=True and / or with some
+        # int columns stored as float64 and bool columns as int64 (lossless, officially converted):
+        # where a row sits must not matter under these options either
+        opts = {"debug": draw(st.booleans()), "types": draw(st.one_of(st.none(), st.integers(0, 10**6)))}
+        return pop, [int(i) for i in perm], label, lab_seed, opts
 
     return s()
 
@@ -92,17 +96,49 @@ def nontrivial(df, perm):
     return False
 
 
-def check(df, date, perm, label, lab_seed):
+def retype(df, seed):
+    """Some int columns as float64, some bool columns as int64 (values unchanged)."""
+    from _gettsim.config import TYPES_INPUT_VARIABLES
+
+    out = df.copy()
+    rng = np.random.RandomState(seed)
+    for c, t in TYPES_INPUT_VARIABLES.items():
+        if c in out.columns and rng.randint(0, 3) == 0:
+            if t is int:
+                out[c] = out[c].astype("float64")
+            elif t is bool:
+                out[c] = out[c].astype("int64")
+    return out
+
+
+def check(df, date, perm, label, lab_seed, opts=None):
+    opts = opts or {}
+    debug = bool(opts.get("debug"))
     nodes = _topo(date)
     base = env.simulate(df, date, targets=nodes)
     df2 = apply(df, perm, label, lab_seed)
-    other = env.simulate(df2, date, targets=nodes)
+    if opts.get("types") is not None:
+        df2 = retype(df2, opts["types"])
+    try:
+        other = env.simulate(df2, date, targets=nodes, debug=debug)
+    except Exception as e:  # noqa: BLE001
+        return [core.Failure(f"raises:{type(e).__name__}", f"{date}: the permuted / relabelled table (index {label}, options {opts}) "
+                             f"raises {type(e).__name__}: {e!s:.160} although the original order is simulated")]
     fails = []
+    key_other = df2["p_id"].to_numpy()
+    if debug:
+        # the debug table shows the inputs next to the results: the p_id *shown* in a row identifies it
+        if len(other) != len(df2) or not set(nodes) <= set(other.columns) or "p_id" not in other.columns:
+            return [core.Failure("shape", f"{date}: debug result has {len(other)} rows for {len(df2)} input rows / lacks columns")]
+        if not np.array_equal(other["p_id"].to_numpy(), key_other):
+            return [core.Failure("debug-row-order", f"{date}: with debug=True and index labels {label!r} the p_id column of the result "
+                                 f"is {other['p_id'].tolist()[:8]}, the input has {key_other.tolist()[:8]}")]
+        other = other[list(base.columns)]
     if len(other) != len(df2) or list(other.columns) != list(base.columns):
         fails.append(core.Failure("shape", f"{date}: result shape/columns differ after permutation"))
         return fails
     diffs = compare.compare_frames(base, other, key_base=df["p_id"].to_numpy(),
-                                   key_other=df2["p_id"].to_numpy(), columns=nodes)
+                                   key_other=key_other, columns=nodes)
     if diffs:
         first = diffs[0]  # nodes are in topological order: the most upstream difference
         d = dict(first)
@@ -113,9 +149,11 @@ def check(df, date, perm, label, lab_seed):
 
 
 def oracle(pop_perm, date, sh, ctx):
-    pop, perm, label, lab_seed = pop_perm
+    pop, perm, label, lab_seed, opts = pop_perm
     df = pop.df
-    fails = check(df, date, perm, label, lab_seed)
+    fails = check(df, date, perm, label, lab_seed, opts)
+    sh.classes[f"debug={opts['debug']}"] += 1
+    sh.classes["retyped-columns" if opts["types"] is not None else "documented-dtypes"] += 1
     if nontrivial(df, perm):
         sh.nontrivial.add(core.digest([popgen.df_to_plain(df[["p_id", "hh_id", "alter", "bruttolohn_m"]]), perm]))
         sh.classes["nontrivial"] += 1
@@ -124,7 +162,7 @@ def oracle(pop_perm, date, sh, ctx):
                "population": popgen.brief(df)}, limit=2)
     for f in fails:
         if f.key not in ctx["known"]:
-            f.case = popcheck.payload(df, date, perm=perm, label=label, lab_seed=lab_seed)
+            f.case = popcheck.payload(df, date, perm=perm, label=label, lab_seed=lab_seed, opts=opts)
     return fails
 
 
@@ -308,4 +346,4 @@ def run(tier, seed, t0):
 
 def replay(case):
     df, date = popcheck.unpack(case)
-    return check(df, date, case["perm"], case.get("label", "range"), case.get("lab_seed", 0))
+    return check(df, date, case["perm"], case.get("label", "range"), case.get("lab_seed", 0), case.get("opts"))
